@@ -47,6 +47,9 @@ CHECKS = {
             "and CMAP row order (pandas) are not decided."),
     "C11": ("5/C11", "Real getSequence: reverse-strand bit vector of Q equals the forward vector of mirror(Q) on the resolution lattice (so seeds coincide); whole real Aligner.align "
             "on (Q,-) and (mirror(Q),+) with the same arbitrary seeds gives mirrored records (labels k <-> N+1-k, equal Confidence, mirrored header, same HitEnum)."),
+    "C19": ("5/C19", "Real AlignmentComparer.compare with an injected row comparer returning symbolic measures, AlignmentComparison.create, and AlignmentRowComparer.compare "
+            "on pair lists of <= 2 pairs: key partition, set differences, swap symmetry, measures in [0,1], reflexivity. Ids and label numbers are hashed by the code, so the "
+            "solver enumerates them by realisation forks (small declared domains) rather than abstracting them."),
 }
 
 NOT_APPLICABLE = {
